@@ -1,7 +1,15 @@
 import os, sys
 sys.path.insert(0, os.path.dirname(os.path.abspath(__file__)))
 import vlib
+# regenerate every table the Coq development imports from /repo's working tree, then build everything
+import exprgen, gen_prec, gen_lr, gen_kinds, gen_trace
+exprgen.Table()
+gen_prec.write(); gen_prec.write_sizes()
+gen_lr.write()
+gen_kinds.write_header(); gen_trace.write()
 vlib.coq_makefile()
 rc, o, e = vlib.sh(['make', '-k', '-j16'], cwd=vlib.COQ, timeout=6000)
 print((o + e)[-2000:])
 print('coq make rc', rc)
+bad = vlib.forbidden_constructs()
+print('forbidden constructs:', bad or 'none')
